@@ -508,6 +508,12 @@ impl<S: WebSocket, T: TimestampProvider> Task<S, T> {
                         // Peer does not respect the `rwnd` limit, this should not happen in normal circumstances.
                         // let's send `Reset`.
                         warn!("Peer does not respect `rwnd` limit, dropping stream");
+                        #[cfg(all(penguin_rs_verif, feature = "std"))]
+                        crate::verif::emit(
+                            Arc::as_ptr(&self.flows) as usize,
+                            flow_id,
+                            crate::verif::Kind::WindowOverrun,
+                        );
                         self.close_flow(flow_id, false);
                     }
                     Some(Err(TrySendError::Closed(()))) => {
